@@ -24,7 +24,7 @@ def run(ctx):
     R1 = 'C18-R1'
     ctx.rule(R1, 'every value inserted into the block cache was verified first: verify_checksum dominates the successful '
                  'return of the future given to Cache::try_get_with / get_with, and dominates every Cache::insert')
-    fills = [c for c in prog.calls_matching(re.compile(r'moka::future::Cache::<.*>::(try_get_with|get_with|insert|try_get_with_by_ref|get_with_by_ref|optionally_get_with)$'))
+    fills = [c for c in prog.calls_matching_all(re.compile(r'moka::future::Cache::<.*>::(try_get_with|get_with|insert|try_get_with_by_ref|get_with_by_ref|optionally_get_with)$'))
              if c.body.name.startswith(SEC) and not (c.fn or '').endswith('Future::poll')]
     ctx.floor(R1, len(fills), 1, 'block-cache fill sites')
     for c in fills:
@@ -71,14 +71,14 @@ def run(ctx):
         if ctx.anchor(R2, 'from_bytes:decode', dec):
             ok = bool(v) and all(b.dominated_by_any(set(v), d) for d in dec)
             ctx.ob(R2, 'ColumnIndex::from_bytes·verify≺decode', ok, f'verify at {v}, decode at {dec}', [site(b, x) for x in dec])
-    readers = [c for c in prog.calls_matching(re.compile(r'FileExt::read_exact_at$|Read::read_exact$|FileExt::read_at$|Read::read$|Read::read_to_end$'))
+    readers = [c for c in prog.calls_matching_all(re.compile(r'FileExt::read_exact_at$|Read::read_exact$|FileExt::read_at$|Read::read$|Read::read_to_end$'))
                if c.body.name.startswith(SEC + 'column')]
     ctx.floor(R2, len(readers), 2, 'raw reads of column files')
     for c in readers:
         ok = c.body.root == GET_BLOCK
         ctx.ob(R2, f'who:{c.body.root}→raw-read', ok, f'raw column read `{c.fn}` in {c.body.name}', [site(c.body, c.bb)])
     # every index file is decoded through from_bytes
-    fb = [c for c in prog.calls_matching(suffix('BlockIndex::decode_length_delimited', 'prost::Message::decode_length_delimited'))
+    fb = [c for c in prog.calls_matching_all(suffix('BlockIndex::decode_length_delimited', 'prost::Message::decode_length_delimited'))
           if 'BlockIndex' in ' '.join(c.t.get('gargs', []) + [c.name or ''])]
     for c in fb:
         ok = c.body.root == FROM_BYTES
@@ -99,6 +99,6 @@ def run(ctx):
                    f'Ok built at blocks {oks}; comparison at {cmps}; Ok not dominated by a comparison: {bad}',
                    [site(b, x) for x in bad])
         # callers: all call sites pass a checksum decoded from the stored trailer (reported)
-        callers = [c for c in prog.calls_matching(suffix('checksum::verify_checksum')) if (c.fn or '').endswith('verify_checksum')]
+        callers = [c for c in prog.calls_matching_all(suffix('checksum::verify_checksum')) if (c.fn or '').endswith('verify_checksum')]
         ctx.floor(R4, len(callers), 2, 'verify_checksum call sites')
         ctx.extra['verify_checksum_callers'] = [c.body.name for c in callers]
